@@ -74,8 +74,20 @@ class Units(object):
         return fac, {k: v for k, v in dims.items() if v != 0}
 
 
-def _q(m, u):
-    return Obj('Quantity', {'m': m, 'u': {k: v for k, v in u.items() if v != 0}})
+def _q(m, u, ityp=False):
+    """ityp: the magnitude may still have the (possibly integer) dtype of the caller's array -- it has only been
+    multiplied by integer-valued magnitudes so far (numpy in-place true division / float scaling of such an array raises)"""
+    return Obj('Quantity', {'m': m, 'u': {k: v for k, v in u.items() if v != 0}, 'ityp': bool(ityp)})
+
+
+def _ityp(v):
+    if isinstance(v, Obj) and v.cls == 'Quantity':
+        return bool(v.attrs.get('ityp'))
+    if getattr(v, 'maybe_int', False):
+        return True
+    if isinstance(v, Num) and not P.is_pw(v.t) and v.t.is_const() and v.t.const_value().denominator == 1:
+        return getattr(v, 'int_literal', True)
+    return False
 
 
 def install(ip, units):
@@ -111,7 +123,10 @@ def install(ip, units):
             raise Unsupported('Quantity unit is not a string literal', node)
         vt, _ = ip2.term_of(v, node)
         ip2.notes.append(('unit-literal', {'s': unit.v, 'loc': ip2.loc(node), 'use': 'Quantity'}))
-        return _q(vt, units.parse(unit.v))
+        q = _q(vt, units.parse(unit.v), _ityp(v))
+        if getattr(v, 'maybe_int', False):
+            q.attrs['wraps_argument'] = True     # pint wraps the caller's array without copying it
+        return q
     ip.natives[('ureg', 'Quantity')] = quantity
 
     def call(ip2, o, args, kwargs, node):
@@ -119,7 +134,7 @@ def install(ip, units):
         if not (isinstance(unit, Const) and isinstance(unit.v, str)):
             raise Unsupported('registry called with a non-literal', node)
         ip2.notes.append(('unit-literal', {'s': unit.v, 'loc': ip2.loc(node), 'use': 'call'}))
-        return _q(N.NF.const(1), units.parse(unit.v))
+        return _q(N.NF.const(1), units.parse(unit.v), True)
     ip.natives[('ureg', '__call__')] = call
 
     def mul(sign):
@@ -130,13 +145,42 @@ def install(ip, units):
                 for k, v in other.attrs['u'].items():
                     u[k] = u.get(k, F(0)) + sign * v
                 m = o.attrs['m'] * other.attrs['m'] if sign > 0 else o.attrs['m'] / other.attrs['m']
-                return _q(m, u)
+                return _q(m, u, sign > 0 and _ityp(o) and _ityp(other))
             t, _ = ip2.term_of(other, node)
-            return _q(o.attrs['m'] * t if sign > 0 else o.attrs['m'] / t, o.attrs['u'])
+            return _q(o.attrs['m'] * t if sign > 0 else o.attrs['m'] / t, o.attrs['u'], sign > 0 and _ityp(o) and _ityp(other))
         return f
     ip.natives[('Quantity', '__mul__')] = mul(+1)
     ip.natives[('Quantity', '__rmul__')] = mul(+1)
     ip.natives[('Quantity', '__truediv__')] = mul(-1)
+
+    def imul(sign):
+        plain = mul(sign)
+
+        def f(ip2, o, args, kwargs, node):
+            # pint applies  *=  and  /=  to an ndarray magnitude in place
+            if o.attrs.get('wraps_argument'):
+                ip2.event('inplace-on-argument', 'Quantity', node, why='the quantity wraps the caller\'s array: the in-place operator modifies the argument')
+            if _ityp(o) and (sign < 0 or not _ityp(args[0])):
+                ip2.event('inplace-int', 'Quantity', node,
+                          why='in-place %s on a magnitude that still has the dtype of the caller\'s array: numpy refuses to '
+                              'store the floating-point result into an integer array (UFuncTypeError for integer input)'
+                              % ('true division' if sign < 0 else 'scaling by a non-integer'))
+            return plain(ip2, o, args, kwargs, node)
+        return f
+    ip.natives[('Quantity', '__imul__')] = imul(+1)
+    ip.natives[('Quantity', '__itruediv__')] = imul(-1)
+
+    def check(ip2, o, args, kwargs, node):
+        d = args[0]
+        if not (isinstance(d, Const) and isinstance(d.v, str)):
+            raise Unsupported('.check() with a non-literal dimension', node)
+        try:
+            want = {str(k): F(v).limit_denominator(1000) for k, v in dict(registry().get_dimensionality(d.v)).items()}
+        except Exception as e:
+            raise Raised(type(e).__name__, '%r: %s' % (d.v, e), ip2.loc(node))
+        _, have = units.to_base(o.attrs['u'])
+        return TRUE if {k: v for k, v in want.items() if v != 0} == have else FALSE
+    ip.natives[('Quantity', 'check')] = check
 
     def rdiv(ip2, o, args, kwargs, node):
         t, _ = ip2.term_of(args[0], node)
@@ -148,7 +192,7 @@ def install(ip, units):
         if not (isinstance(e, Num) and e.t.is_const()):
             raise Unsupported('quantity raised to a non-constant power', node)
         q = e.t.const_value()
-        return _q(N.rat_pow(o.attrs['m'], q), {k: v * q for k, v in o.attrs['u'].items()})
+        return _q(N.rat_pow(o.attrs['m'], q), {k: v * q for k, v in o.attrs['u'].items()}, False)
     ip.natives[('Quantity', '__pow__')] = power
 
     def to(ip2, o, args, kwargs, node):
@@ -170,7 +214,7 @@ def install(ip, units):
             if len(tu) != 1 or list(tu.values()) != [F(1)]:
                 raise Unsupported('offset unit inside a compound target', node)
             m = m - N.NF.const(offs[0][1])
-        r = _q(m, tu)
+        r = _q(m, tu, False)
         r.attrs['normalised'] = tgt.v
         return r
     ip.natives[('Quantity', 'to')] = to
@@ -231,6 +275,9 @@ def rule_conversions(ctx, rule='R17.d'):
                 ip.declare('x')
                 ip.declare('diam')
                 args = [Num(N.sym('x'))] + ([Num(N.sym('diam'))] if meth == 'toVolumeFraction' else [])
+                for a_ in args:
+                    a_.maybe_int = True         # the caller may pass an integer-dtype array
+                e0 = len(ip.events)
                 res = ip.call(ip.find_method(o, meth), args, {})
             except Raised as e:
                 n += 1
@@ -241,6 +288,12 @@ def rule_conversions(ctx, rule='R17.d'):
                 ctx.undecided(rule, construct, '%s: %s' % (tag, e), m.loc())
                 continue
             n += 1
+            inpl = [e for e in ip.events[e0:] if e['kind'] in ('inplace-int', 'inplace-on-argument')]
+            if inpl:
+                ctx.violation('R17.l', construct, 'inplace:' + tag, '%s: %s at %s' % (tag, inpl[0]['why'], inpl[0]['loc']), m.loc())
+            else:
+                ctx.holds('R17.l', construct, '%s: no in-place operator is applied to a value that still carries the argument\'s '
+                          'array or dtype (array-safe for integer and float input alike)' % tag, m.loc(), key=tag, nontrivial=False)
             unit, want = _expected(meth, ec_unit)
             if not (isinstance(res, Obj) and res.cls == 'Quantity'):
                 ctx.violation(rule, construct, 'not-a-quantity', '%s: returns %r' % (tag, res), m.loc())
@@ -271,6 +324,39 @@ def rule_conversions(ctx, rule='R17.d'):
                 ctx.holds(rule, construct, '%s: magnitude == %s in %s; linear in the argument' % (tag, N.show(want), unit), m.loc(),
                           key=tag, sample={'method': meth, 'ec_unit': ec_unit, 'magnitude': N.show(got), 'unit': unit})
     ctx.floor(rule, n, 12, 'conversion method x characteristic-energy kind')
+
+
+def rule_registry_isolation(ctx, rule='R17.r'):
+    """Every converter defines its characteristic units dc/mc/ec by name in a pint registry; two converters with
+    different characteristic values therefore need two registries.  Two instances are constructed in one analysis
+    and must not share the registry object (a module-level / cached registry makes the second converter convert with
+    the first one's units, or raise on re-definition)."""
+    cls = ctx.prog.cls(UC)
+    mi = cls.find_method('__init__')
+    try:
+        ip = Interp(ctx.prog)
+        units = Units()
+        install(ip, units)
+        objs = []
+        for tag in ('', '2'):
+            kw = {p: Num(ip.declare(p + tag)) for p in ('dc', 'mc', 'ec')}
+            objs.append(ip.construct(cls, [], kw))
+    except Unsupported as e:
+        ctx.undecided(rule, UC + '.__init__', str(e), mi.loc())
+        return
+    except Raised as e:
+        ctx.violation(rule, UC + '.__init__', 'second-instance', 'constructing a second converter raises %s: %s' % (e.exc, e.msg), mi.loc())
+        return
+    regs = [[k for k, v in o.attrs.items() if isinstance(v, Obj) and v.cls == 'ureg'] for o in objs]
+    shared = [k for k in regs[0] if k in regs[1] and objs[0].attrs[k] is objs[1].attrs[k]]
+    if not regs[0]:
+        ctx.undecided(rule, UC + '.__init__', 'no pint registry attribute found on the converter', mi.loc())
+    elif shared:
+        ctx.violation(rule, UC + '.__init__', 'shared-registry',
+                      'two converters share one unit registry (attribute %s): the names dc/mc/ec defined for the second instance '
+                      'collide with those of the first, so one of them converts with the other\'s characteristic units' % shared, mi.loc())
+    else:
+        ctx.holds(rule, UC + '.__init__', 'each converter owns its registry (two instances constructed: distinct registry objects)', mi.loc())
 
 
 def rule_unit_literals(ctx, rule='R17.u'):
